@@ -1,8 +1,19 @@
 #!/bin/sh
-# convenience: run every check (quick) in parallel groups and summarise
+# convenience: run every check and summarise.  quick: all 18 in parallel; thorough: three at a time
+# (each thorough check already uses 8 worker processes for the level-2 enumeration)
 cd "$(dirname "$0")/.."
 tier=${1:-quick}
-for p in C01 C02 C03 C04 C05 C06 C07 C08 C09 C10 C11 C12 C13 C14 C15 C16 C17 C18; do
-  ( ./check $p --tier $tier > work/run_$p.log 2>&1; echo "$p exit=$? $(grep -c VIOLATION work/run_$p.log) $(grep -E 'VIOLATION|KNOWN' work/run_$p.log | head -3 | tr '\n' ' ')" ) &
-done
-wait
+one() {
+  p=$1
+  ./check $p --tier $tier > work/run_$p.log 2>&1
+  echo "$p exit=$? $(grep -c VIOLATION work/run_$p.log) $(grep -E 'VIOLATION|KNOWN' work/run_$p.log | head -3 | tr '\n' ' ')"
+}
+if [ "$tier" = quick ]; then
+  for p in C01 C02 C03 C04 C05 C06 C07 C08 C09 C10 C11 C12 C13 C14 C15 C16 C17 C18; do one $p & done
+  wait
+else
+  for g in "C01 C02 C03" "C04 C05 C06" "C07 C08 C09" "C10 C11 C12" "C13 C14 C15" "C16 C17 C18"; do
+    for p in $g; do one $p & done
+    wait
+  done
+fi
